@@ -38,6 +38,8 @@ pub struct Task {
 pub struct Case {
     pub tasks: Vec<Task>,
     pub multi_thread: bool,
+    /// simulated latency of every storage call (paused-time part only)
+    pub storage_latency_ms: u64,
 }
 
 pub struct C18 {
@@ -75,7 +77,8 @@ impl Prop for C18 {
                 cancel_after: if !self.multi_thread && src.chance(1, 4) { Some(1 + src.below(24)) } else { None },
             })
             .collect();
-        Case { tasks, multi_thread: self.multi_thread }
+        let storage_latency_ms = if self.multi_thread { 0 } else { *src.pick(&[0u64, 0, 1, 3]) };
+        Case { tasks, multi_thread: self.multi_thread, storage_latency_ms }
     }
 
     fn run(&self, case: &Case) -> Outcome {
@@ -97,12 +100,13 @@ impl Prop for C18 {
     fn describe(&self, case: &Case) -> Value {
         json!({
             "runtime": if case.multi_thread { "4 workers (OS schedule, 10 repetitions)" } else { "current-thread (schedule = generated yields)" },
+            "storage_latency_ms": case.storage_latency_ms,
             "tasks": case.tasks.iter().map(|t| format!("{:?} ks{} yields {}+{}{}", t.kind, t.ks, t.pre_yields, t.mid_yields, t.cancel_after.map(|n| format!(" dropped at suspension point {n}")).unwrap_or_default())).collect::<Vec<_>>(),
         })
     }
 
     fn rule(&self) -> &'static str {
-        "2-6 concurrent tasks on 1-2 *fresh* keyspace names of a real KeyspaceGroup; each task yields 0-3 times, calls \
+        "2-6 concurrent tasks on 1-2 *fresh* keyspace names of a real KeyspaceGroup (storage calls take 0-3 simulated ms on the owned schedule); each task yields 0-3 times, calls \
          get_or_create_keyspace, yields 0-3 times, then sends one mutation on its own key (client put/delete, \
          replication batch, read-repair batch) or just polls the state; on the owned schedule a quarter of the tasks is cancelled (future dropped) at a \
          generated suspension point (polled n times, then dropped); oracle: the mailbox a LATER lookup returns \
@@ -141,6 +145,11 @@ impl<F: std::future::Future> std::future::Future for DropAfter<F> {
 
 async fn run(case: &Case) -> Outcome {
     let store = ModelStore::default();
+    {
+        let mut g = store.inner.lock();
+        g.write_latency_ms = case.storage_latency_ms;
+        g.read_latency_ms = case.storage_latency_ms;
+    }
     let group = e2::new_group(store.clone(), 9).await;
     let mut handles = vec![];
     for (i, t) in case.tasks.iter().enumerate() {
@@ -239,12 +248,15 @@ async fn run(case: &Case) -> Outcome {
     if cancelled > 0 {
         labels.push("a_first_user_was_cancelled");
     }
+    if case.storage_latency_ms > 0 {
+        labels.push("slow_storage");
+    }
     Ok(Pass { nontrivial: close, labels })
 }
 
 pub fn parts() -> Vec<Box<dyn DynPart>> {
     vec![
-        Box::new(Gen::new(C18 { multi_thread: false }, 20_000, 1_000_000)),
+        Box::new(Gen::new(C18 { multi_thread: false }, 200_000, 10_000_000)),
         Box::new(Gen::new(C18 { multi_thread: true }, 300, 10_000)),
     ]
 }
@@ -364,7 +376,7 @@ pub mod startup {
 
     async fn run(case: &Case) -> Outcome {
         let repair = Duration::from_secs(30);
-        let layout = Layout { nodes: case.nodes.clone(), repair_interval: repair };
+        let layout = Layout { nodes: case.nodes.clone(), repair_interval: repair, storage_latency_ms: Default::default() };
         let mut nodes = e3::start_cluster(&layout).await;
         let t0 = tokio::time::Instant::now();
         for op in &case.before {
@@ -447,7 +459,7 @@ pub mod startup {
     }
 
     pub fn parts() -> Vec<Box<dyn DynPart>> {
-        vec![Box::new(Gen::new(Startup, 20_000, 1_000_000))]
+        vec![Box::new(Gen::new(Startup, 60_000, 3_000_000))]
     }
 }
 
